@@ -33,19 +33,20 @@ func (cl *concurrentWriter) Init(c plugintypes.AuditLogConfig) error {
 		return nil
 	}
 
-	cl.logFileMode = c.FileMode
-	cl.logDir = c.Dir
-	cl.logDirMode = c.DirMode
-	cl.formatter = c.Formatter
-	cl.mux = &sync.RWMutex{}
-
-	f, err := os.OpenFile(c.Target, os.O_CREATE|os.O_WRONLY|os.O_APPEND, cl.logFileMode)
+	f, err := os.OpenFile(c.Target, os.O_CREATE|os.O_WRONLY|os.O_APPEND, c.FileMode)
 	if err != nil {
 		return err
 	}
 	cl.Closer = f
 
+	// The writer is configured only once the index file is open: Write takes a
+	// formatter as the sign that everything it uses is in place.
+	cl.logFileMode = c.FileMode
+	cl.logDir = c.Dir
+	cl.logDirMode = c.DirMode
+	cl.mux = &sync.RWMutex{}
 	cl.log = log.New(f, "", 0)
+	cl.formatter = c.Formatter
 	return nil
 }
 
